@@ -136,12 +136,15 @@ func (proj *Project) load(index bool) (err error) {
 			return m.err
 		}
 	}
+	verifhook.Crash("load.afterPackages", "")
 
 	if err := proj.link(); err != nil {
 		return err
 	}
+	verifhook.Crash("load.afterLink", "")
 
 	proj.saveIndex()
+	verifhook.Crash("load.afterIndex", "")
 	return nil
 }
 
@@ -456,13 +459,17 @@ func (proj *Project) saveTargetInfo(label *label.Label, info targetInfo) error {
 		return err
 	}
 	tempName := f.Name()
+	verifhook.Crash("save.afterCreateTemp", label.String())
 
 	if err = json.NewEncoder(f).Encode(info); err != nil {
 		return err
 	}
+	verifhook.Crash("save.afterEncode", label.String())
 	if err = f.Close(); err != nil {
 		return err
 	}
+	verifhook.Crash("save.beforeRename", label.String())
+	defer verifhook.Crash("save.afterRename", label.String())
 
 	return os.Rename(tempName, path)
 }
